@@ -28,6 +28,10 @@ def gen_cases(ctx, n_hist, n_tree, n_consumer, tree_ops=(6, 7), big=False,
                                  max_machines=rng.choice([2, 3, 4, 5]),
                                  policies=POLICIES)
         c["kind"] = "history"
+        # abandoned episodes: reset after a few steps (biased to very early), then a full episode
+        if rng.random() < 0.3:
+            c["abandon_after"] = [rng.choice([1, 1, 2, 3, rng.randint(1, 12)])
+                                  for _ in range(rng.choice([1, 1, 2]))]
         yield c
     for i in range(n_tree):
         inst = gen.gen_instance(rng, rng.choice(classes or gen.INSTANCE_CLASSES),
@@ -68,6 +72,7 @@ def inst_from_library(instance):
 
 class Hooks:
     def start(self, run): pass
+    def reset(self, run): pass
     def before(self, run): pass
     def after(self, run, o, m): pass
     def end(self, run): pass
@@ -80,7 +85,16 @@ def run_history(ctx, case, hooks: Hooks, instance=None):
     hooks.start(run)
     explicit = case.get("history")
     k = 0
+    abandon = list(case.get("abandon_after") or []) if explicit is None else []
     while not run.done():
+        if abandon and len(run.r.history) >= abandon[0]:
+            # abandon the episode: reset dispatcher and reference model, start over
+            abandon.pop(0)
+            run.d.reset()
+            run.r.reset()
+            ctx.count("abandoned_episodes")
+            hooks.reset(run)
+            continue
         hooks.before(run)
         if explicit is not None:
             o, m = explicit[k]
